@@ -487,6 +487,14 @@ def main():
         if problems:
             proof_ok = False
             proof_msgs += problems
+        if tier == "thorough":
+            # the compiled theorem files are replayed by Lean's independent checker, one module per call
+            for f in prop_modules(prop):
+                mod = "Utcp.Props." + os.path.basename(f)[:-5]
+                pc = subprocess.run(["lake", "env", "leanchecker", mod], cwd=LEAN, stdout=subprocess.PIPE, stderr=subprocess.STDOUT, text=True)
+                if pc.returncode != 0:
+                    proof_ok = False
+                    proof_msgs.append("leanchecker rejects %s: %s" % (mod, pc.stdout[-300:].strip()))
         tv_ok, tv_out = validate_translator()
         if not tv_ok:
             proof_ok = False
